@@ -537,16 +537,38 @@ class C31(Prop):
     props_module = 'LokiModel.Props.C31'
     findings_module = 'LokiModel.Findings.C31'
     driver = 'Drivers/C31.lean'
-    theorems = []
+    theorems = ['unroll_sound', 'unroll_sound_rel', 'unroll_range_is_do_sequence', 'subst_stmts_sim']
     design_ref = 'DESIGN.md 4.F C31'
     level = 'proof'
-    level_text = ''
-    level_note = ''
+    level_text = ('Theorems (Lean kernel, all programs / states / fuel, no size bound): unroll_sound — for every DO loop with literal '
+                  'bounds and non-zero literal step whose body is in the covered class okSs (loop variable not assigned, not an inner '
+                  'DO variable, not an array name, not mentioned in PRINT; no ASSOCIATE, no CALL) and has no EXIT/CYCLE of its own, '
+                  'from every state without ASSOCIATE names in which the loop variable is an integer scalar: a finished loop is '
+                  'matched by the unrolled statement list (copies of the body with the literal substituted, exactly what the model '
+                  'of LoopUnrollTransformer produces) — same error, or same printed output and same value of EVERY variable other '
+                  'than the loop variable; unroll_sound_rel is the relational form (any second state that agrees off the loop '
+                  'variable); unroll_range_is_do_sequence ties the value list to the Fortran DO sequence through the C10 theorems '
+                  '(negative steps included); subst_stmts_sim is the statement-level substitution lemma (same fuel). The excluded '
+                  'inputs are decidable classes with witnesses on the real code (loop variable live after the loop, EXIT/CYCLE, '
+                  'PRINT text, ASSOCIATE bodies). The full transformation do_loop_unroll (pragma attachment, depth, nested unrolling, '
+                  'neighbour/counter-in-bounds branches, non-literal loops) is modelled and tied to the real code by correspondence '
+                  'of the transformed programs; no theorem is stated about the composed traversal. Fusion, fission, interchange: '
+                  'models of the simple classes (correspondence) + direct oracle on nests that are legal by construction; blocking '
+                  '(split_loop): direct oracle only. No theorem for fusion/fission/interchange/blocking.')
+    level_note = ('Hand-written model; FIR semantics (Fir/Sem.lean) is the reference, tied to gfortran in the thorough tier. '
+                  'CALL statements and loops inside ASSOCIATE blocks are covered by correspondence and oracle only. '
+                  'The converse direction (unrolled code finishes => loop finishes) is not proved.')
     technique = 'Lean 4 theorems about a hand-written model of the transformation on FIR programs + correspondence with the real code'
-    rule = ''
+    rule = ('unroll: fir.gen_program biased to DO loops (steps 1, 2, -1, -3, literal and symbolic bounds, zero-trip loops, nested loops, '
+            'EXIT/CYCLE, ASSOCIATE, calls, prints) with `loki loop-unroll[ depth(0..3)]` in front of 70% of the loops, 2-3 input sets; '
+            'fusion / fission / interchange / block: loop nests of element-wise statements (legal by construction), groups, differing '
+            'loop variables and ranges, promoted scalars, steps and block sizes; non-trivial = the program has a loop the '
+            'transformation may touch; distinct by request line')
     trusted_base = ['harness/fir.py (printer, exporter from Loki IR, reference interpreter)', 'gfortran 12.2 (thorough tier)']
-    assumptions = []
-    extra_obligations = ['oracle: original vs really transformed program on generated inputs']
+    assumptions = ['integer overflow and floating-point rounding are outside the FIR semantics (generated programs stay exact)',
+                   'pragma texts are lower case, at most one loop-unroll pragma per loop (model restriction, generator stays inside)']
+    extra_obligations = ['oracle: original vs really transformed program on generated inputs',
+                         'class predicates: python mirrors agree with the Lean Known… definitions on every request']
 
     def classes(self):
         return ['unroll-exit-cycle', 'unroll-print-text', 'unroll-associate-body', 'unroll-loopvar-live',
@@ -554,15 +576,15 @@ class C31(Prop):
 
     # ---- generation
     def gen(self, rng, tier):
-        n_unroll = {'quick': 45, 'thorough': 400, 'search': 150}.get(tier, 45)
+        n_unroll = {'quick': 30, 'thorough': 250, 'search': 120}.get(tier, 30)
         n_in = 2 if tier == 'quick' else 3
         for j in range(n_unroll):
             prog = add_unroll_pragmas(rng, fir.gen_program(rng, UNROLL_CFG))
             inputs = fir.gen_inputs(rng, prog, n_in)
-            gf = tier == 'thorough' and j % 4 == 0
+            gf = tier == 'thorough' and j % 6 == 0
             yield Case([A('unroll'), prog, inputs, A('gf' if gf else 'nogf')], stream='unroll',
                        nontrivial=any(True for u in units(prog) for _ in unroll_candidates(u[4])))
-        n_nest = {'quick': 8, 'thorough': 60, 'search': 25}.get(tier, 8)
+        n_nest = {'quick': 4, 'thorough': 30, 'search': 15}.get(tier, 4)
         for kind in ('fusion', 'fusion-o', 'fission', 'fission-o', 'interchange', 'block'):
             for j in range(n_nest):
                 prog, params = gen_nest(rng, kind)
